@@ -1,5 +1,5 @@
 """C13 - parsing respects the grammar: precedence, layout, rejection (DESIGN 5/C13, notes/C13.md)."""
-import json, random
+import json, os, random
 from harness import tlc, engine, wire
 from harness import render_expr as R
 from harness.common import Machinery
@@ -181,14 +181,28 @@ def run_batch(rep, rng, quick, lo, hi, totals):
                      dev=v.get("dev", ""))
 
 
-def judge_retry(rep, recs):
+def judge_retry(rep, recs, module="C13"):
     """the judge is a pure function of the records: a transient JVM failure (loaded machine) is retried once"""
+    from harness.common import workdir
+    orig = tlc.run
+
+    def logged(*a, **k):
+        res = orig(*a, **k)
+        if res.errors or res.rc != 0:
+            with open(os.path.join(workdir(rep.pid), "judge_errors.txt"), "a") as f:
+                f.write("rc=%s errors=%r\n" % (res.rc, res.errors))
+                f.write("\n".join(l for l in res.stdout.splitlines() if not l.startswith('"{'))[-3000:] + "\n----\n")
+        return res
+    tlc.run = logged
     try:
-        return tlc.judge(rep.pid, "C13", recs, JUDGE_CFG, timeout=1700)
-    except Machinery as e:
-        import sys
-        print("judge failed once, retrying with 8 shards: %s" % str(e)[:300].replace("\n", " | "), file=sys.stderr)
-        return tlc.judge(rep.pid, "C13", recs, JUDGE_CFG, timeout=1700, shards=8, tag="judge_retry")
+        try:
+            return tlc.judge(rep.pid, module, recs, JUDGE_CFG, timeout=1700)
+        except Machinery as e:
+            import sys
+            print("judge failed once, retrying with 8 shards (see .work/%s/judge_errors.txt)" % rep.pid, file=sys.stderr)
+            return tlc.judge(rep.pid, module, recs, JUDGE_CFG, timeout=1700, shards=8, tag="judge_retry")
+    finally:
+        tlc.run = orig
 
 
 def show(r, ec):
